@@ -15,6 +15,11 @@ fn dispatch(id: &str, ctx: &Ctx) -> Option<Report> {
         "C04" => mon::c04::run(ctx),
         "C05" => mon::c05::run(ctx),
         "C19" => mon::c19::run(ctx),
+        "C16" => mon::c16::run(ctx),
+        "C02" => mon::c02::run(ctx),
+        "C12" => mon::c12::run(ctx),
+        "C17" => mon::c17::run(ctx),
+        "C18" => mon::c18::run(ctx),
         _ => return None,
     })
 }
